@@ -120,6 +120,49 @@ def cls_c12(verdict, case):
     return out or [cls_default(verdict, case)]
 
 
+def cls_c13(verdict, case):
+    """malformed-stream driver: tagged clauses "C13.<id> ..." and "diff mal.si <what> ..." joined by " ;; "; a recovered
+    panic is prefixed by the dispatcher ("panic mal.si ;; ..."), a hang is "hang mal.si ..."; corpus files of the core
+    component use the full-stack classes"""
+    if case and '"c":"core"' in case[-1][:40] or (case and '"c": "core"' in case[-1][:40]):
+        return cls_tagged("C13")(verdict, case)
+    body = verdict[4:] if verdict.startswith("inv ") else verdict
+    out = []
+    for part in body.split(" ;; "):
+        w = part.split()
+        if not w:
+            continue
+        if w[0] == "diff":
+            out.append("diff-" + w[1] + ("-" + w[2] if len(w) > 2 else ""))
+        elif w[0] in ("panic", "hang"):
+            out.append(w[0] + "-" + (w[1] if len(w) > 1 else ""))
+        elif w[0].startswith("C13."):
+            out.append(w[0])
+    return out or [cls_default(verdict, case)]
+
+
+def cls_c16(verdict, case):
+    """reload driver: tagged clauses "C16.<id> ..." and "diff <step>.<what> ..." joined by " ;; "; a recovered panic is
+    prefixed by the dispatcher, a reload that does not return is the clause C16.P1 when the configuration drops a partition"""
+    body = verdict[4:] if verdict.startswith("inv ") else verdict
+    out, panic = [], False
+    for part in body.split(" ;; "):
+        w = part.split()
+        if not w:
+            continue
+        if w[0] == "diff":
+            out.append("diff-" + (w[1] if len(w) > 1 else ""))
+        elif w[0] == "panic":
+            panic = True
+        elif w[0] == "hang":
+            out.append("hang-" + (w[1] if len(w) > 1 else ""))
+        elif w[0].startswith("C16."):
+            out.append(w[0])
+    if panic:
+        out.append("panic-unexplained")
+    return out or [cls_default(verdict, case)]
+
+
 # a difference between the stepped Core model and the implementation is reported by the properties whose theorems are
 # about that model
 # a difference between the stepped Core model and the implementation is reported by the properties whose theorems are
@@ -233,7 +276,7 @@ PROPS = {
     "C01": dict(
         module="YkProps.C01",
         leancheck=["YkModel.Node", "YkProofs.Node", "YkProps.C01"],
-        runs=[dict(comp="node", quick=3200, thorough=100000), dict(comp="core", quick=300, thorough=6000, extra=["-mode", "mixed"])],
+        runs=[dict(comp="node", quick=3200, thorough=100000), dict(comp="core", quick=720, thorough=9000, extra=["-mode", "mixed"])],
         classify=cls_both("C01"),
         nontrivial=lambda line: '"op":"reset"' not in line and '"op":"setSchedulable"' not in line,
         rule="node: random histories (<=50 ops) of every public ledger operation of objects.Node — TryAddAllocation, AddAllocation (forced, foreign and not), RemoveAllocation, UpdateForeignAllocation, "
@@ -253,7 +296,7 @@ PROPS = {
     "C02": dict(
         module="YkProps.C02",
         leancheck=["YkModel.Queue", "YkProofs.Queue", "YkProps.C02"],
-        runs=[dict(comp="queue", quick=2400, thorough=64000), dict(comp="core", quick=300, thorough=6000, extra=["-mode", "mixed"])],
+        runs=[dict(comp="queue", quick=2400, thorough=64000), dict(comp="core", quick=720, thorough=9000, extra=["-mode", "mixed"])],
         classify=cls_both("C02"),
         nontrivial=lambda line: '"op":"reset"' not in line,
         rule="queue: random queue trees (2..8 queues, chains and fans, sparse max/guaranteed with undefined/0/positive entries per type, maxApplications) built with NewConfiguredQueue; <=48 ops per tree: TryIncAllocatedResource, IncAllocatedResource (forced), DecAllocatedResource, SetResources, SetMaxResource(root), canRunApp / incRunningApps / decRunningApps / setAllocatingAccepted (hooks), SetMaxRunningApps; after every op the whole tree (allocated, raw max, guaranteed, headroom, max headroom, effective max, counters) is dumped, compared with the model and the property clauses are evaluated on the dump. non-trivial = not a reset line; distinct = distinct protocol lines",
@@ -270,7 +313,7 @@ PROPS = {
     "C11": dict(
         module="YkProps.C11",
         leancheck=["YkModel.Queue", "YkProofs.Queue", "YkProps.C11", "YkProps.C10"],
-        runs=[dict(comp="queue", quick=2400, thorough=64000), dict(comp="core", quick=300, thorough=6000, extra=["-mode", "mixed"])],
+        runs=[dict(comp="queue", quick=2400, thorough=64000), dict(comp="core", quick=720, thorough=9000, extra=["-mode", "mixed"])],
         classify=cls_both("C11"),
         nontrivial=lambda line: '"op":"reset"' not in line,
         rule="queue: random queue trees (2..8 queues, chains and fans, sparse max/guaranteed with undefined/0/positive entries per type, maxApplications) built with NewConfiguredQueue; <=48 ops per tree: TryIncAllocatedResource, IncAllocatedResource (forced), DecAllocatedResource, SetResources, SetMaxResource(root), canRunApp / incRunningApps / decRunningApps / setAllocatingAccepted (hooks), SetMaxRunningApps; after every op the whole tree (allocated, raw max, guaranteed, headroom, max headroom, effective max, counters) is dumped, compared with the model and the property clauses are evaluated on the dump. non-trivial = not a reset line; distinct = distinct protocol lines",
@@ -286,7 +329,7 @@ PROPS = {
     "C10": dict(
         module="YkProps.C10",
         leancheck=["YkModel.AppFsm", "YkProps.C10"],
-        runs=[dict(comp="core", quick=300, thorough=6000, extra=["-mode", "mixed"])],
+        runs=[dict(comp="core", quick=720, thorough=9000, extra=["-mode", "mixed"])],
         classify=cls_both("C10"),
         nontrivial=lambda line: '"op":"reset"' not in line,
         rule="the transition table and callback bodies are regenerated from application_state.go (T2) and the theorems re-checked; application-level histories are exercised by the full-stack check",
@@ -301,7 +344,7 @@ PROPS = {
     "C03": dict(
         module="YkProps.C03",
         leancheck=['YkModel.CoreState', 'YkModel.CoreOps', 'YkProofs.Core', 'YkProps.C03'],
-        runs=[dict(comp="core", quick=300, thorough=6000, extra=["-mode", "mixed"])],
+        runs=[dict(comp="core", quick=720, thorough=9000, extra=["-mode", "mixed"])],
         classify=cls_tagged("C03"),
         nontrivial=lambda line: '"op":"reset"' not in line,
         rule='core: random histories (30..120 operations) on a real ClusterContext driven synchronously through hooks: node create/create-drain/update/drain/undrain/decommission, application add (plain and gang, several users, static and dynamic queues, duplicate ids) / remove, asks (plain, placeholder, task groups, required node, priorities), RM-placed allocations, in-place resizes, foreign allocations add/update/remove, releases by key and of whole applications, scheduling cycles (predicate plugin denying some (ask,node) pairs, reservation delay 0, preemption on), placeholder and state timers fired explicitly, shim confirmations (PLACEHOLDER_REPLACED / TIMEOUT / PREEMPTED) delivered immediately, late, twice or never; 60% of the histories end by releasing and removing everything (drain). After every operation the complete state (nodes, queues, applications with asks/allocations, counters, user/group trackers) and the messages sent to the shim are dumped; the driver evaluates every clause on the dump, the per-step clauses against the previous dump, the shim protocol automaton on the messages, and steps the Core model from the previous dump for the modelled operations. non-trivial = not a reset line; distinct = distinct protocol lines',
@@ -315,7 +358,7 @@ PROPS = {
     "C04": dict(
         module="YkProps.C04",
         leancheck=['YkModel.Shim', 'YkProofs.Shim', 'YkProps.C04'],
-        runs=[dict(comp="core", quick=300, thorough=6000, extra=["-mode", "mixed"])],
+        runs=[dict(comp="core", quick=720, thorough=9000, extra=["-mode", "mixed"])],
         classify=cls_tagged("C04"),
         nontrivial=lambda line: '"op":"reset"' not in line,
         rule='core: random histories (30..120 operations) on a real ClusterContext driven synchronously through hooks: node create/create-drain/update/drain/undrain/decommission, application add (plain and gang, several users, static and dynamic queues, duplicate ids) / remove, asks (plain, placeholder, task groups, required node, priorities), RM-placed allocations, in-place resizes, foreign allocations add/update/remove, releases by key and of whole applications, scheduling cycles (predicate plugin denying some (ask,node) pairs, reservation delay 0, preemption on), placeholder and state timers fired explicitly, shim confirmations (PLACEHOLDER_REPLACED / TIMEOUT / PREEMPTED) delivered immediately, late, twice or never; 60% of the histories end by releasing and removing everything (drain). After every operation the complete state (nodes, queues, applications with asks/allocations, counters, user/group trackers) and the messages sent to the shim are dumped; the driver evaluates every clause on the dump, the per-step clauses against the previous dump, the shim protocol automaton on the messages, and steps the Core model from the previous dump for the modelled operations. non-trivial = not a reset line; distinct = distinct protocol lines',
@@ -329,7 +372,7 @@ PROPS = {
     "C06": dict(
         module="YkProps.C06",
         leancheck=['YkModel.Reserve', 'YkProofs.Reserve', 'YkProps.C06'],
-        runs=[dict(comp="core", quick=300, thorough=6000, extra=["-mode", "mixed"])],
+        runs=[dict(comp="core", quick=720, thorough=9000, extra=["-mode", "mixed"])],
         classify=cls_tagged("C06"),
         nontrivial=lambda line: '"op":"reset"' not in line,
         rule='core: random histories (30..120 operations) on a real ClusterContext driven synchronously through hooks: node create/create-drain/update/drain/undrain/decommission, application add (plain and gang, several users, static and dynamic queues, duplicate ids) / remove, asks (plain, placeholder, task groups, required node, priorities), RM-placed allocations, in-place resizes, foreign allocations add/update/remove, releases by key and of whole applications, scheduling cycles (predicate plugin denying some (ask,node) pairs, reservation delay 0, preemption on), placeholder and state timers fired explicitly, shim confirmations (PLACEHOLDER_REPLACED / TIMEOUT / PREEMPTED) delivered immediately, late, twice or never; 60% of the histories end by releasing and removing everything (drain). After every operation the complete state (nodes, queues, applications with asks/allocations, counters, user/group trackers) and the messages sent to the shim are dumped; the driver evaluates every clause on the dump, the per-step clauses against the previous dump, the shim protocol automaton on the messages, and steps the Core model from the previous dump for the modelled operations. non-trivial = not a reset line; distinct = distinct protocol lines',
@@ -343,7 +386,7 @@ PROPS = {
     "C09": dict(
         module="YkProps.C09",
         leancheck=['YkModel.Reserve', 'YkProofs.Reserve', 'YkProps.C09'],
-        runs=[dict(comp="core", quick=300, thorough=6000, extra=["-mode", "mixed"])],
+        runs=[dict(comp="core", quick=720, thorough=9000, extra=["-mode", "mixed"])],
         classify=cls_tagged("C09"),
         nontrivial=lambda line: '"op":"reset"' not in line,
         rule='core: random histories (30..120 operations) on a real ClusterContext driven synchronously through hooks: node create/create-drain/update/drain/undrain/decommission, application add (plain and gang, several users, static and dynamic queues, duplicate ids) / remove, asks (plain, placeholder, task groups, required node, priorities), RM-placed allocations, in-place resizes, foreign allocations add/update/remove, releases by key and of whole applications, scheduling cycles (predicate plugin denying some (ask,node) pairs, reservation delay 0, preemption on), placeholder and state timers fired explicitly, shim confirmations (PLACEHOLDER_REPLACED / TIMEOUT / PREEMPTED) delivered immediately, late, twice or never; 60% of the histories end by releasing and removing everything (drain). After every operation the complete state (nodes, queues, applications with asks/allocations, counters, user/group trackers) and the messages sent to the shim are dumped; the driver evaluates every clause on the dump, the per-step clauses against the previous dump, the shim protocol automaton on the messages, and steps the Core model from the previous dump for the modelled operations. non-trivial = not a reset line; distinct = distinct protocol lines',
@@ -438,7 +481,7 @@ PROPS = {
     "C05": dict(
         module="YkProps.C05",
         leancheck=["YkModel.Ugm", "YkProofs.Ugm", "YkProofs.UgmAcct", "YkProofs.UgmCfg", "YkProofs.UgmLoad", "YkProofs.UgmMgr", "YkProofs.UgmMAcct", "YkProps.C05"],
-        runs=[dict(comp="ugm", quick=1600, thorough=48000), dict(comp="core", quick=300, thorough=6000, extra=["-mode", "mixed"])],
+        runs=[dict(comp="ugm", quick=1600, thorough=48000), dict(comp="core", quick=720, thorough=9000, extra=["-mode", "mixed"])],
         classify=cls_ugm,
         nontrivial=lambda line: '"op":"reset"' not in line,
         rule="ugm: random cases on the real ugm.Manager singleton (reset with ClearUserTrackers/ClearGroupTrackers/ClearConfigLimits): queue universe root, root.a, root.a.b, root.c; "
@@ -531,6 +574,67 @@ PROPS = {
         level_note="trusted: Lean kernel; hand-written replay model tied by correspondence only; placement taken from the implementation; simulated shim; exact arithmetic; single partition, single goroutine; user trackers are checked by monitors (usage = sum of the user's applications), not stepped by the model",
         technique="Lean 4 invariant proof over a replay model (induction over the replayed items, order independence) + two-execution differential correspondence on real ClusterContexts",
         design_ref="DESIGN.md section 4 C12",
+    ),
+    "C13": dict(
+        module="YkProps.C13",
+        leancheck=["YkModel.SiReq", "YkProofs.SiReq", "YkProps.C13"],
+        runs=[dict(comp="mal", quick=2000, thorough=16000)],
+        classify=cls_c13,
+        nontrivial=lambda line: '"op":"si"' in line,
+        rule="mal: raw si.AllocationRequest / si.ApplicationRequest / si.NodeRequest messages injected after ~30% of the operations of the mostly-valid full-stack histories (general, gang and preemption generators of the core component), "
+             "sent through rmproxy.RMProxy.UpdateAllocation/UpdateApplication/UpdateNode into the real ClusterContext handlers: allocations (new / pending / bound / placeholder / swapping placeholder / in-flight real / released / foreign / empty keys; "
+             "live, unknown, empty, terminated and removed applications; known, unknown, removed and empty node ids; ResourcePerAlloc unset, empty, zero, negative, mixed sign, zero-and-positive, int64 extremes, odd type names; tags unset / empty / invalid creation time / "
+             "foreign tag with every value / required node; placeholder with and without task group; PreemptionPolicy unset; int32 extreme priorities), releases (every TerminationType incl. out-of-range numbers on every kind of key, release-all, foreign, unknown), "
+             "applications (new / duplicate / empty / terminated / removed ids, odd queue names, Ugi unset / empty user / no groups / invalid names, tags unset / force-create / quota and max-apps tags with garbage, negative and huge timeouts, placeholder ask of every shape, any style), "
+             "removals of live / unknown / empty / terminated ids, nodes (every action number incl. unknown ones on known / unknown / empty / removed / new ids, attributes unset / empty / without partition, capacity of every shape), "
+             "every partition spelling (empty, short, normalised, other partition, other RM, garbage) and unknown RM ids; 1-3 items per request (80% single), never a nil list element or nil map value. Items of the known gap classes and quantities near the int64 range are confined to 35% of the histories. "
+             "Around each request: recover(), 10 s hang timeout with goroutine dump, answers with rejection reasons, full ledger dump. non-trivial = an injected request line; distinct = distinct protocol lines",
+        trusted=["one partition, one registered RM; the RM proxy is called directly (no gRPC layer) and its scheduler-side handler calls the ClusterContext handlers synchronously on the calling goroutine (what the scheduler event loop does)",
+                 "placement (rules, ACLs, queue creation, queue checks) is an oracle of the model: the driver takes the implementation's own placement answer (property C17 models it); the user name regular expression is re-implemented in the driver",
+                 "accepted items are followed by the stepped model only on the paths CoreOps covers (new ask, foreign add/remove, simple release, node create/update/drain); other accepted paths are judged by the answers and the state clauses only",
+                 "exact integer arithmetic: after a quantity near the int64 range entered a history the exact-arithmetic clauses are muted for that history (saturation is property C18)",
+                 "nil list elements and nil map values are excluded by the property and never generated"],
+        assumptions=["requests reach the core through RMProxy (partition names normalised, node attribute map present)"],
+        level_text="Lean 4 proofs over an executable model of the validation / decision layer (RM proxy checks, NewAllocationFromSI, UpdateAllocation, handleForeignAllocation, removeAllocation, ConvertUGI(force), AddApplication up to placement, removeApplication, addNode, updateNode) written path by path with sub-messages as Option and unchecked dereferences as Except Panic, "
+                   "for ALL states and ALL items: no item panics; every item is accepted, rejected with the protocol's message or silently ignored; an item the property calls invalid (specification written from the property text) is refused with the ledgers unchanged and with the rejection message where the protocol has one — proved outside the listed gap classes, "
+                   "and machine-checked to FAIL with a concrete witness inside each gap class (known findings); a valid item is never refused. Tie: differential correspondence of the classification (answers with reasons, state unchanged / stepped state) against the real core behind the real RM proxy, plus the property's statement and every ledger clause evaluated on what the implementation did.",
+        level_note="trusted: Lean kernel; hand-written model tied by correspondence only; placement is an oracle; accepted paths outside the stepped model are monitored, not predicted; panics on paths the model abstracts (logging, metrics, events) are seen only by the correspondence",
+        technique="Lean 4 proof over an executable model of the request validation layer + differential correspondence and monitors on the real core behind the real RM proxy",
+        design_ref="DESIGN.md section 4 C13",
+    ),
+    "C16": dict(
+        module="YkProps.C16",
+        leancheck=["YkModel.Reload", "YkProofs.Reload", "YkProps.C16"],
+        runs=[dict(comp="reload", quick=6400, thorough=160000)],
+        classify=cls_c16,
+        nontrivial=lambda line: '"op":"reset"' not in line,
+        rule="reload: histories (n/20 of them) on a real ClusterContext driven synchronously through hooks: a generated configuration (root -> a, b{b1,b2}, c, d, e{e1{e11}} with sparse max / guaranteed / maxapplications, "
+             "properties from the nine interpreted keys with valid and invalid values, child templates, user/group limits, node sort policy, preemption flag, sometimes a second partition) is loaded, then 25..70 operations: "
+             "nodes, applications in configured and dynamic queues (also submitted to draining queues, parents, missing queues), asks, scheduling cycles (reservation delay 0), releases, removals, the partition manager's queue cleaner (hook), "
+             "and configuration updates (25%) through the RM event path (checksum short-cut) or UpdateRMSchedulerConfig: 1..3 mutations of the configuration in force (add leaf / parent, drop a subtree, re-add a dropped subtree, leaf->parent, parent->leaf, "
+             "resources, maxapplications, properties, child template, limits, partition settings and placement rules, add a partition), the identical text, a comment-only change, configurations the validator refuses (6 kinds), "
+             "configurations the validator accepts and the loader refuses (template quantity, ACL text, top queue name, unknown rule) in the first or in the second partition. Every line carries the complete dump of the core plus per partition the "
+             "queue tree with all configuration-derived fields; update lines also the annotated configuration and the fresh load the real code builds for it (its dry-run partition). The driver steps the model from the implementation's previous state, "
+             "compares answer and state, compares the model's fresh load with the real one, and evaluates the property clauses on the dumps. non-trivial = not a reset line; distinct = distinct protocol lines",
+        trusted=["resource quantities, ACL texts and template texts enter the model as the real parsers read them (flags: which step of applyConf refuses the entry); the validator's verdict is an input (C15 owns the validator)",
+                 "ACLs are not part of the modelled queue state (C17 owns them); user/group limits are an opaque text handed to the user manager (C05 owns the trackers): only the usage booked for users and groups is compared across a reload",
+                 "durations in property values: integer groups <digits><unit> only (no fractions are generated)",
+                 "queue names are ASCII; one RM; a reload that drops a partition is not modelled (it does not return: clause C16.P1, corpus witness)",
+                 "quota preemption start times, metrics and events are not observed"],
+        assumptions=["configuration lists are well-formed (confWF: distinct paths, parent entries of parent type first) — what flattening a validated configuration tree in pre-order gives; the driver checks it on every line",
+                     "tree invariant used by the marking model: a queue below an unmanaged queue is unmanaged (checked on every dumped tree, clause C16.W0)"],
+        level_text="Lean 4 proofs over the executable model of processRMConfigUpdateEvent / updateSchedulerConfig / updatePartitionDetails / updateQueues / applyConf / NewConfiguredQueue / cleanQueues for ALL queue trees and ALL configuration lists: "
+                   "the dry run is a sufficient guard (a fresh load that goes through means the update walk goes through on every tree: no error exit after the first change), so a single-partition update answered with an error changed nothing "
+                   "(the unrestricted clause is machine-checked to FAIL for two partitions: known finding A1); validator refusals and the identical text are no-ops; whatever the walk does, every queue keeps its allocated / pending / preempting totals, "
+                   "applications, reservations and counters and new queues start empty; after an accepted update every configured queue is present, managed, active (reactivated) and of the configured type, every other managed queue is no longer active, "
+                   "dynamic queues are untouched; REFINEMENT: every configured queue carries the configuration-derived fields (limits, effective properties incl. inherited ones and what is derived from them, child template) of a FRESH load of the same configuration, "
+                   "inherited child templates and the maxapplications of the top queue included, proved at full strength for every configuration without a queue NAMED root below the top queue, under an explicit hypothesis otherwise and machine-checked to FAIL without it (resources of a queue named root: known finding L2); the fresh load carries exactly what each entry says, inheritance key by key (own value, else the filtered parent value); "
+                   "the queue cleaner only removes, and only queues without applications that are draining or dynamic and have no child left; a draining queue (or a queue to be created below one) takes no application. "
+                   "Tie: one-step differential correspondence of the model against a real ClusterContext (answer and complete queue tree after every update / cleaner run / submission), the model's fresh load against the real dry-run partition, "
+                   "and the same clauses evaluated on the implementation's dumps.",
+        level_note="trusted: Lean kernel; hand-written reload model tied by correspondence only; parsers and validator as oracles; ACLs and user/group limits outside the modelled state; the recursive MarkQueueForRemoval walk is modelled by its characterisation under a tree invariant checked at run time",
+        technique="Lean 4 proof over an executable model of the reload path (refinement against the fresh load) + one-step differential correspondence on a real ClusterContext",
+        design_ref="DESIGN.md section 4 C16",
     ),
 }
 
